@@ -290,7 +290,13 @@ def run_world(build, until, chooser, lazy=True, cache=True, max_loop_iterations=
         try:
             with warnings.catch_warnings():
                 warnings.simplefilter("ignore")
-                world.run(until=until, print_progress=False, lazy_stepping=lazy, rt_factor=rt_factor, rt_strict=rt_strict)
+                # lazy stepping is the documented default: when it is wanted, it is not passed (and neither are the real-time defaults)
+                kw = {} if lazy else {"lazy_stepping": False}
+                if rt_factor is not None:
+                    kw["rt_factor"] = rt_factor
+                if rt_strict:
+                    kw["rt_strict"] = True
+                world.run(until=until, print_progress=False, **kw)
             outcome = "finished"
         except _Watchdog:
             outcome = "failed Hang run() did not return within 10 s"
